@@ -176,9 +176,18 @@ C05_Why(i, k, t) ==
        THEN "both<3"
      ELSE IF RepOf(i, k, t).times < HandoverScrapes THEN "source<3"
      ELSE "destination<3"
+\* the other half of "the same cycle marks it in-transfer on the source": a copy placed on k of a target that in-sync
+\* shards hold in normal state (and none in transfer) is a move - one of those holders is told so in this cycle
+C05_NormalHolders(i, k, t) == {j \in Sh(i) \ {k} : InSync(i, j) /\ t \in Reported(i, j) /\ RepOf(i, j, t).state = ""}
+C05_Unmarked(i, o) ==
+  {<<k, t>> \in Sh(i) \X ActiveSet(i) :
+      /\ t \in New(i, o, k) /\ InSync(i, k)
+      /\ C05_NormalHolders(i, k, t) # {} /\ ~C05_TwoSources(i, o, k, t)
+      /\ ~\E j \in C05_NormalHolders(i, k, t) : Sent(o, j) /\ t \in Posted(o, j) /\ PostOf(o, j, t).state = "in_transfer"}
 C05(i, o) ==
   {[f |-> "removed-before-handover", k |-> p[1], t |-> p[2], why |-> C05_Why(i, p[1], p[2])] : p \in C05_Early(i, o)}
   \cup {[f |-> "marked-without-destination", k |-> p[1], t |-> p[2]] : p \in C05_Unpaired(i, o)}
+  \cup {[f |-> "copied-without-marking-the-source", k |-> p[1], t |-> p[2]] : p \in C05_Unmarked(i, o)}
 \* non-vacuity: the cycle contains a move in progress or started
 C05_NonTrivial(i, o) ==
   \/ \E k \in Sh(i) : InSync(i, k) /\ \E r \in RepRecs(i, k) : r.state = "in_transfer" /\ r.t \in ActiveSet(i)
@@ -248,5 +257,18 @@ C03(i, o) ==
     ELSE {}
 
 -----------------------------------------------------------------------------
-All(i, o) == [C01 |-> C01(i, o), C03 |-> C03(i, o), C04 |-> C04(i, o), C05 |-> C05(i, o), C07 |-> C07(i, o), C08 |-> C08(i, o)]
+(* C20, last sentence: the counts of the successful probe are the estimate the target is first assigned with.  A target *)
+(* no reachable shard reports and for which the explorer has a healthy result is, when placed, sent with that result.     *)
+C20(i, o) ==
+  {[f |-> "first-assignment-without-the-probes-counts", k |-> p[1], t |-> p[2],
+    sent |-> [series |-> PostOf(o, p[1], p[2]).series, total |-> PostOf(o, p[1], p[2]).total]] :
+     p \in {p \in Sh(i) \X ActiveSet(i) :
+              /\ p[2] \in New(i, o, p[1])
+              /\ ~\E j \in Sh(i) : StatusOK(i, j) /\ p[2] \in Reported(i, j)
+              /\ \E e \in ExplRecs(i) : e.t = p[2] /\ e.health = "up"
+              /\ LET e == CHOOSE e \in ExplRecs(i) : e.t = p[2]
+                     x == PostOf(o, p[1], p[2])
+                 IN x.series # e.series \/ x.total # e.total}}
+
+All(i, o) == [C01 |-> C01(i, o), C03 |-> C03(i, o), C04 |-> C04(i, o), C05 |-> C05(i, o), C07 |-> C07(i, o), C08 |-> C08(i, o), C20 |-> C20(i, o)]
 =============================================================================
